@@ -289,6 +289,22 @@ def run(ctx):
     auths = [b for t, b in s.wire.writes if b.startswith(b"AUTHENTICATE")]
     if auths and b'"LOGIN"' in auths[0]:
         viol.append({"history": "plaintext injection behind STARTTLS OK", "what": "mechanism chosen from capabilities received BEFORE the handshake: %r" % auths[0][:40]})
+    for p_ in check_writes(s.wire.writes, True, False):
+        viol.append({"history": "the OK to STARTTLS arrives together with further clear-text bytes", "what": p_,
+                     "writes": [("tls" if t else "plain", b[:40].decode("latin-1")) for t, b in s.wire.writes]})
+    # the same with other kinds of trailing clear text, and a server that would even accept the credentials
+    for trailing in (b'OK "injected"\r\n', b"\r\n", b'"SASL" "PLAIN"\r\nOK\r\n', b"x"):
+        class Inj2(Inj):
+            def receive(self, b):
+                self.n += 1
+                return (b'OK "Begin TLS"\r\n' + trailing) if self.n == 1 else b'OK "Logged in."\r\n'
+        s2 = msref.Session()
+        srv2_ = Inj2()
+        out2_ = s2.connect(b"", [], "user", "pw", starttls=True, server=srv2_)
+        evals += 1
+        for p_ in check_writes(s2.wire.writes, True, False):
+            viol.append({"history": "the OK to STARTTLS arrives together with the clear-text bytes %r" % trailing, "what": p_,
+                         "writes": [("tls" if t else "plain", b[:40].decode("latin-1")) for t, b in s2.wire.writes]})
 
     # 3b. a server that turns the client away in its greeting — BYE, bare, with a text, or with a response code naming another
     #     server (RFC 5804 section 1.3, REFERRAL) — and that would answer normally if the client came back (on its own or by
